@@ -4,7 +4,7 @@
    as externals that are later equated and freed, pending list) for the operator core {atom, ~, &, >, >:, >?, <?};
    Spec/LTLUnique.v for the full operator set at the semantic level. *)
 From Coq Require Import List Bool Arith ZArith Lia.
-Require Import HT TEL LTLUnique BodyTheoryCore GenPrelude TheoryPrelude FromTheory Leaf_theory.
+Require Import HT TEL LTLUnique BodyTheoryCore GenPrelude TheoryPrelude FromTheory Leaf_theory FullOps.
 
 (* In every state reachable with an empty work list, for every assignment v of the auxiliary atoms that violates no
    emitted constraint and gives unresolved placeholders their external value, the literal cached for formula f at
@@ -85,6 +85,16 @@ Theorem C03_boolean_is_LTLf : forall (A : Type) (h : nat) (T : TEL.trace A) op a
   TEL.lsat A h T (match op with OpAnd => TAnd A a b | OpOr => TOr A a b | OpLImp => TImp A b a | OpRImp => TImp A a b
                               | OpEqv => TAnd A (TImp A a b) (TImp A b a) end) k = bool_spec op (TEL.lsat A h T a k) (TEL.lsat A h T b k).
 Proof. exact boolean_case. Qed.
+(* FULL operator set, tied to the regenerated tables: let v phi k be the value an assignment gives to the literal of
+   formula phi at state k.  If at every node (phi, k), k <= h, the assignment violates none of the constraints that the
+   regenerated clause table of phi's constructor emits over the literals of its arguments (node_ok: Boolean connectives,
+   n-fold weak/strong previous and next with the regenerated case analysis on k, n and h, until/release through the
+   literal of `> self` / `>: self`, since/trigger through the literal of state k-1), then every literal has the LTLf
+   value of its formula at its state - arbitrary nesting, any sharing (v is a function of the formula, not of the atom
+   that mentions it). *)
+Theorem C03_full_operator_set : forall (A : Type) (h : nat) (T : TEL.trace A) (v : tf A -> nat -> bool),
+  (forall p k, k <= h -> node_ok A h T v p k) -> forall p k, k <= h -> v p k = TEL.lsat A h T p k.
+Proof. exact full_ops_value. Qed.
 Print Assumptions C03_value_is_LTLf.
 Print Assumptions C03_step.
 Print Assumptions C03_definitional.
@@ -92,3 +102,4 @@ Print Assumptions C03_equations_determine_LTLf.
 Print Assumptions C03_boolean_clauses. Print Assumptions C03_temporal_clauses. Print Assumptions C03_equal_clauses.
 Print Assumptions C03_previous_is_LTLf. Print Assumptions C03_next_is_LTLf. Print Assumptions C03_until_release_is_LTLf.
 Print Assumptions C03_since_trigger_is_LTLf. Print Assumptions C03_boolean_is_LTLf.
+Print Assumptions C03_full_operator_set.
